@@ -30,6 +30,9 @@ type recSource struct {
 }
 
 type c01Scenario struct {
+	// FailFirst: the writer process first writes the first record to a sink
+	// that fails after that many bytes, then carries on with a healthy sink.
+	FailFirst *int        `json:"fail_first,omitempty"`
 	Records   []recSource `json:"records"`
 	Chunks2   []int       `json:"chunks2,omitempty"`
 	Chunks3   []int       `json:"chunks3,omitempty"`
@@ -125,6 +128,10 @@ func genC01(r *core.RNG, tier string) *c01Scenario {
 		sc.Records = append(sc.Records, src)
 	}
 	sc.Chunks2, sc.Chunks3, sc.AltChunks = genChunks(r), genChunks(r), genChunks(r)
+	if r.Chance(1, 8) {
+		b := r.Intn(1500)
+		sc.FailFirst = &b
+	}
 	return sc
 }
 
@@ -282,6 +289,18 @@ func (x *c01Run) exec() {
 	processBoundary()
 	outs := make([][]byte, n)
 	skip := make([]bool, n)
+	if sc.FailFirst != nil && n > 0 && sc.Records[0].Gen != nil {
+		sink := &simpipe.Writer{Limit: *sc.FailFirst}
+		func() {
+			defer func() { recover() }()
+			seqio.NewWriter(sink, seqio.GenBankFile).WriteSeq(sc.Records[0].Gen.build())
+		}()
+		if res.Faults == nil {
+			res.Faults = map[string]int{}
+		}
+		res.Faults["writer-sink-fails-after-B-bytes"]++
+		x.key("failed-write-first")
+	}
 	for i, s := range sc.Records {
 		if s.Gen != nil {
 			vals[i] = s.Gen.build()
@@ -547,6 +566,7 @@ func (C01) Candidates(raw json.RawMessage) []json.RawMessage {
 		}
 	}
 	for _, f := range []func(*c01Scenario){
+		func(c *c01Scenario) { c.FailFirst = nil },
 		func(c *c01Scenario) { c.Chunks2 = nil }, func(c *c01Scenario) { c.Chunks3 = nil }, func(c *c01Scenario) { c.AltChunks = nil },
 	} {
 		c := cl()
